@@ -16,6 +16,10 @@ package main
 //	GOFUNRUN  <file> <func> <arg>...  = ok (<returned values>) (<final contents of the []byte parameters>) | panic
 //	                                             (model: run_fun <translated program of the file> … on the same arguments)
 //
+// Third file (task T15, gofungen.go, Model/GoFunGen.v): generator/helpers.go — KeySize in the same language, and one more
+// declaration form, `var m = map[K]V{pkg.A: pkg.B, …}` ((mapvar m K V (k v)…)), for ProtoWireType's `return wireTypes[k]`;
+// GOFUNCONST / GOFUNTYPE lines hold the model's tables of named constants and named types against the real declarations.
+//
 // What the translator does NOT do: no type checking, no constant folding, no renaming, no reordering. Any construct outside the
 // subset makes the declaration "untranslatable" (the observed value of its GOFUN line, hence a mismatch).
 // What it trusts: go/parser for lexing, operator precedence and associativity (parentheses are dropped: the tree is kept), the
@@ -66,6 +70,7 @@ type gfFile struct {
 	rel     string // path relative to the repository root: the <file> of the case lines
 	file    *ast.File
 	imports map[string]bool // local names of the imported packages
+	maps    bool            // the file's language has package-level constant maps (generator/helpers.go: Model/GoFunGen.v)
 }
 
 var gfIntTypes = map[string]string{
@@ -639,6 +644,7 @@ type gfDecl struct {
 	node gfn
 	fail string
 	fn   bool
+	mapv bool // a package-level constant map (gofungen.go)
 }
 
 func (f *gfFile) where(p token.Pos) string {
@@ -696,6 +702,12 @@ func (f *gfFile) decls() []gfDecl {
 					vs := sp.(*ast.ValueSpec)
 					for i, n := range vs.Names {
 						i, n := i, n
+						if f.maps && x.Tok == token.VAR && vs.Type == nil && len(vs.Values) == len(vs.Names) && gfIsMapLit(vs.Values[i]) {
+							d := f.try("var:"+n.Name, false, func() gfn { return f.mapDecl(n, vs.Values[i].(*ast.CompositeLit)) })
+							d.mapv = true
+							out = append(out, d)
+							continue
+						}
 						out = append(out, f.try(strings.ToLower(x.Tok.String())+":"+n.Name, false, func() gfn {
 							if vs.Type != nil || len(vs.Values) != len(vs.Names) {
 								gfFail(vs.Pos(), "package-level declaration other than `name = expression`")
@@ -730,7 +742,7 @@ func gfRepo() string {
 }
 
 func gfLoad(rel string) (*gfFile, error) {
-	f := &gfFile{fset: token.NewFileSet(), rel: rel, path: filepath.Join(gfRepo(), filepath.FromSlash(rel)), imports: map[string]bool{}}
+	f := &gfFile{fset: token.NewFileSet(), rel: rel, path: filepath.Join(gfRepo(), filepath.FromSlash(rel)), imports: map[string]bool{}, maps: rel == gfGen}
 	src, err := os.ReadFile(f.path)
 	if err != nil {
 		return nil, err
@@ -750,7 +762,7 @@ func gfLoad(rel string) (*gfFile, error) {
 	return f, nil
 }
 
-var gfFiles = []string{"runtime/runtime.go", "support/timepb/cmp.go"}
+var gfFiles = []string{"runtime/runtime.go", "support/timepb/cmp.go", "generator/helpers.go"}
 
 // ---- values of GOFUNRUN lines -----------------------------------------------------------------------------------------
 func gfI(t string, x int64) string  { return t + ":" + i64s(x) }
@@ -815,7 +827,7 @@ func (g *gfRunner) run(file, fn string, args []string, f func() string) {
 	g.o.nontrivial("run/" + fn + "/" + cl + "/" + k)
 }
 
-const gfRT, gfTP = "runtime/runtime.go", "support/timepb/cmp.go"
+const gfRT, gfTP, gfGen = "runtime/runtime.go", "support/timepb/cmp.go", "generator/helpers.go"
 
 func (g *gfRunner) sov(x uint64) {
 	g.run(gfRT, "Sov", []string{gfU("uint64", x)}, func() string { return "ok (" + gfI("int", int64(runtime.Sov(x))) + ") ()" })
@@ -893,16 +905,21 @@ type gfOpaqueResolver struct{ *protoregistry.Types }
 
 func engineGoFun(c config, o *out) {
 	coq := len(c.extra) > 0 && c.extra[0] == "coq"
-	// extra argument "runtime" / "timepb": only that file (C15 is about runtime.go, C17 about timepb/cmp.go); none: both
-	doRT, doTP := true, true
-	if len(c.extra) > 0 && c.extra[0] == "runtime" {
-		doTP = false
-	}
-	if len(c.extra) > 0 && c.extra[0] == "timepb" {
-		doRT = false
+	// extra argument "runtime" / "timepb" / "generator": only that file (C15 is about runtime.go, C17 about timepb/cmp.go, C02 and
+	// C12 use generator/helpers.go); none: all
+	doRT, doTP, doGen := true, true, true
+	if len(c.extra) > 0 {
+		switch c.extra[0] {
+		case "runtime":
+			doTP, doGen = false, false
+		case "timepb":
+			doRT, doGen = false, false
+		case "generator":
+			doRT, doTP = false, false
+		}
 	}
 	for _, rel := range gfFiles {
-		if (rel == gfRT && !doRT) || (rel == gfTP && !doTP) {
+		if (rel == gfRT && !doRT) || (rel == gfTP && !doTP) || (rel == gfGen && !doGen) {
 			continue
 		}
 		f, err := gfLoad(rel)
@@ -927,12 +944,14 @@ func engineGoFun(c config, o *out) {
 			o.kase("GOFUN", []string{rel, d.name, "eqb"}, "same")
 			o.count("translated")
 			o.nontrivial("decl/" + d.node.sx)
-			for _, form := range []string{"(:=", "(=", "(if", "(for", "(switch", "(case", "(return", "(panic", "(call", "(pcall", "(mcall", "(conv", "(index", "(lit"} {
+			for _, form := range []string{"(:=", "(=", "(if", "(for", "(switch", "(case", "(return", "(panic", "(call", "(pcall", "(mcall", "(conv", "(index", "(lit", "(mapvar"} {
 				o.hist["form_"+form[1:]] += strings.Count(d.node.sx, form+" ")
 			}
 			if coq {
 				cn := "canon_" + strings.NewReplacer(":", "_").Replace(d.name)
-				if d.fn {
+				if d.mapv {
+					fmt.Printf("Definition %s : gmapdecl :=\n  %s.\n", cn, d.node.coq)
+				} else if d.fn {
 					fmt.Printf("Definition %s : fundecl :=\n  %s.\n", cn, d.node.coq)
 				} else {
 					fmt.Printf("Definition %s : gname * gexpr :=\n  %s.\n", cn, d.node.coq)
@@ -951,6 +970,9 @@ func engineGoFun(c config, o *out) {
 	}
 	if doTP {
 		gfRunTimepb(g, c)
+	}
+	if doGen {
+		gfRunGenerator(g, c)
 	}
 }
 
